@@ -114,22 +114,29 @@ fn decode(kind: u64, b: &[u8]) -> Dres {
     match r { Err(_) => Dres::Panic, Ok(None) => Dres::Err, Ok(Some((m, r))) => Dres::Ok(m, r) }
 }
 
-struct Enc { valid: bool, size: usize, bytes: Option<Vec<u8>>, dirty_same: bool }
-fn encode_with<T: sciparse::payload::encode::PayloadEncode + Clone>(h: &ScionPacketHeader, p: &T) -> Enc {
+/// `dirty`: the outputs of `try_encode` into a REUSED buffer pre-filled with 0xFF (id 1), 0xA5 (id 2) and
+/// the previous packet's bytes (id 3); `None` = the call failed, panicked or wrote another length
+struct Enc { valid: bool, size: usize, bytes: Option<Vec<u8>>, dirty: Vec<(u64, Option<Vec<u8>>)> }
+fn encode_with<T: sciparse::payload::encode::PayloadEncode + Clone>(h: &ScionPacketHeader, p: &T, prev: &[u8]) -> Enc {
     let pkt = ScionPacket { header: h.clone(), payload: p.clone() };
     let valid = pkt.wire_valid().is_ok();
     let size = catch_unwind(AssertUnwindSafe(|| pkt.required_size())).unwrap_or(usize::MAX);
     let bytes = catch_unwind(AssertUnwindSafe(|| pkt.try_encode_to_vec().ok())).unwrap_or(None);
-    let mut dirty_same = true;
+    let mut dirty = vec![];
     if let Some(b) = &bytes {
-        let mut d = vec![0xffu8; b.len()];
-        let r = catch_unwind(AssertUnwindSafe(|| pkt.try_encode(&mut d).ok())).unwrap_or(None);
-        dirty_same = r == Some(b.len()) && &d == b;
+        let fills: [(u64, Vec<u8>); 3] = [
+            (1, vec![0xffu8; b.len()]), (2, vec![0xa5u8; b.len()]),
+            (3, if prev.is_empty() { vec![0x3cu8; b.len()] } else { prev.iter().cycle().take(b.len()).copied().collect() }),
+        ];
+        for (id, mut d) in fills {
+            let r = catch_unwind(AssertUnwindSafe(|| pkt.try_encode(&mut d).ok())).unwrap_or(None);
+            dirty.push((id, if r == Some(b.len()) { Some(d) } else { None }));
+        }
     }
-    Enc { valid, size, bytes, dirty_same }
+    Enc { valid, size, bytes, dirty }
 }
-fn encode(m: &Model) -> Enc {
-    match &m.pl { Pl::Raw(b) => encode_with(&m.header, b), Pl::Udp(u) => encode_with(&m.header, u), Pl::Scmp(s) => encode_with(&m.header, s) }
+fn encode(m: &Model, prev: &[u8]) -> Enc {
+    match &m.pl { Pl::Raw(b) => encode_with(&m.header, b, prev), Pl::Udp(u) => encode_with(&m.header, u, prev), Pl::Scmp(s) => encode_with(&m.header, s, prev) }
 }
 /// checksum of the L4 message recomputed by ChecksumDigest with the message placed at an ODD address
 fn csum_unaligned(m: &Model, bytes: &[u8]) -> u64 {
@@ -282,7 +289,7 @@ fn directed_models() -> Vec<(Model, String)> {
     let mut out = vec![];
     let overhead = |h: &ScionPacketHeader, pk: u64| -> usize {
         let m = Model { header: h.clone(), pl: payload_with(pk, 0).unwrap() };
-        encode(&m).size.saturating_sub(h.required_size())
+        encode(&m, &[]).size.saturating_sub(h.required_size())
     };
     let paths: Vec<(DpPath, bool)> = vec![(DpPath::Empty, false), (std_path(&mut rng, &[2, 3], 0, 1), true)];
     for pk in 0..=9u64 {
@@ -303,7 +310,16 @@ fn directed_models() -> Vec<(Model, String)> {
             }
         }
     }
-    for pk in [10u64, 11] { let pl = payload_with(pk, 0).unwrap(); out.push((Model { header: simple_header(ProtocolNumber::Scmp, false, DpPath::Empty), pl }, "directed:fixed-size".into())); }
+    // EVERY payload kind x EVERY path kind, small: the reused-buffer comparison and all oracles see each
+    // per-kind copy of the encoder (tag "matrix": all dirty-buffer outputs are kept in the case)
+    for pk in 0..=11u64 {
+        let pl = payload_with(pk, if pk >= 10 { 0 } else { 5 }).unwrap();
+        let pths: Vec<DpPath> = vec![DpPath::Empty, DpPath::OneHop(OneHopPath { info: infof(&mut rng), hops: [hopf(&mut rng, 0), hopf(&mut rng, 1)] }),
+            std_path(&mut rng, &[2, 3], 1, 3), DpPath::Unsupported { path_type: PathType::Other(77), data: vec![0x5a; 8] }];
+        for (i, pa) in pths.into_iter().enumerate() {
+            out.push((Model { header: simple_header(nh_of(&pl), i % 2 == 1, pa), pl: pl.clone() }, format!("directed:matrix-kind{pk}-path{i}")));
+        }
+    }
     // HdrLen: common 12 + address 24 (v4/v4) resp. 48 (v6/v6) + path
     for pk in [0u64, 1, 2, 5] {
         let pl = payload_with(pk, 3).unwrap();
@@ -330,6 +346,7 @@ fn main() {
     let mut seen = std::collections::HashSet::new();
     let mut pool: Vec<(u64, Vec<u8>)> = vec![];
     let n_enc = n * 2 / 3;
+    let mut prev: Vec<u8> = vec![];
     let mut push = |sh: &mut Shards, sum: &mut Summary, case: String, human: String, nontrivial: bool| {
         if seen.insert(case.clone()) && nontrivial { sum.count("distinct_nontrivial"); }
         if sum.samples.len() < 3 && nontrivial { sum.samples.push(human.clone()); }
@@ -342,7 +359,7 @@ fn main() {
         let hostile = i >= n_dir && (i - n_dir) % 3 == 2;
         let (m, dtag) = match directed.next() { Some((m, t)) => (m, Some(t)), None => (model(&mut rng, hostile), None) };
         if let Some(t) = &dtag { sum.count(&format!("enc.{}", t.split('-').next().unwrap_or("directed"))); }
-        let e = encode(&m);
+        let e = encode(&m, &prev);
         let kind = m.kind();
         let (dec, un) = match &e.bytes { Some(b) => (decode(kind, b), csum_unaligned(&m, b)), None => (Dres::Err, 65536) };
         sum.count(if dtag.is_some() { "enc.directed" } else if hostile { "enc.hostile" } else { "enc.valid_shaped" });
@@ -355,9 +372,19 @@ fn main() {
             (Pl::Raw(a), Pl::Raw(b)) => a == b, (Pl::Udp(a), Pl::Udp(b)) => a == b, (Pl::Scmp(a), Pl::Scmp(b)) => a == b || true, _ => false }, _ => true };
         let tag_alias = m.noncanon() && e.valid && !rust_equal;
         if tag_alias { sum.count("enc.noncanonical_tag_decoded_unequal"); }
+        // reused-buffer outputs: kept in the case when they differ from the fresh-buffer output (always for the matrix cases)
+        let keep_all = dtag.as_deref().map(|t| t.starts_with("directed:matrix")).unwrap_or(false);
+        let dirty_diff = e.dirty.iter().filter(|(_, d)| d.as_ref() != e.bytes.as_ref()).count();
+        sum.add("enc.dirty_encodes", e.dirty.len() as u64);
+        if dirty_diff > 0 { sum.count("enc.dirty_output_differs"); }
+        sum.count(&format!("enc.payload.{}", match &m.pl { Pl::Raw(_) => "raw".to_string(), Pl::Udp(_) => "udp".to_string(), Pl::Scmp(x) => format!("scmp{}", cscmp(x).split(' ').next().unwrap_or("").trim_start_matches('(')) }));
+        sum.count(&format!("enc.path.{}", match &m.header.path { DpPath::Empty => "empty", DpPath::OneHop(_) => "onehop", DpPath::Standard(_) => "standard", DpPath::Unsupported { .. } => "unsupported" }));
+        let dirty = coq_list(e.dirty.iter().filter(|(_, d)| keep_all || d.as_ref() != e.bytes.as_ref())
+            .map(|(id, d)| format!("({id},{})", d.as_ref().map(|b| coq_rle(b)).unwrap_or("[]".into()))));
         let case = format!("CE {} {} {} {} {} {} {} {} {}", kind, m.coq(), coq_bool(tag_alias), coq_bool(e.valid), if e.size == usize::MAX { 0 } else { e.size },
-            e.bytes.as_ref().map(|b| coq_rle(b)).unwrap_or("[]".into()), dec.coq(), coq_bool(e.dirty_same), un);
-        let human = format!("enc {} valid={} size={} noncanon={} dirty_same={} :: {}", dtag.as_deref().unwrap_or(if hostile { "hostile" } else { "shaped" }), e.valid, e.size, m.noncanon(), e.dirty_same, human_model(&m));
+            e.bytes.as_ref().map(|b| coq_rle(b)).unwrap_or("[]".into()), dec.coq(), dirty, un);
+        if let Some(b) = &e.bytes { if b.len() < 3000 { prev = b.clone(); } }
+        let human = format!("enc {} valid={} size={} noncanon={} dirty_outputs_differing={} :: {}", dtag.as_deref().unwrap_or(if hostile { "hostile" } else { "shaped" }), e.valid, e.size, m.noncanon(), dirty_diff, human_model(&m));
         push(&mut sh, &mut sum, case, human, e.valid);
     }
     // decoder stream
@@ -378,7 +405,7 @@ fn main() {
             _ => {}
         }
         let d = decode(kind, &b);
-        let (reok, re) = match &d { Dres::Ok(m, _) => { let e = encode(m); (e.bytes.is_some(), e.bytes.unwrap_or_default()) } _ => (false, vec![]) };
+        let (reok, re) = match &d { Dres::Ok(m, _) => { let e = encode(m, &[]); (e.bytes.is_some(), e.bytes.unwrap_or_default()) } _ => (false, vec![]) };
         sum.count(&format!("dec.mode{mode}"));
         sum.count(match &d { Dres::Ok(..) => "dec.ok", Dres::Err => "dec.err", Dres::Panic => "dec.panic" });
         let case = format!("CD {} {} {} {} {}", kind, coq_rle(&b), d.coq(), coq_bool(reok), coq_rle(&re));
